@@ -220,7 +220,9 @@ pub fn c05_world(seed: u64, corpus: &[Program]) -> (World, Dims) {
     // stay at Info
     let any_big = jobs.iter().any(|j| j.source.0.len() > 32 * 1024);
     let log_level = if r.chance(1, 16) && !any_big { 4 + r.below(2) as u8 } else { 3 };
-    (World { prop: "C05".into(), seed, threads, jobs, sched, note: format!("{:?}", d), log_level }, d)
+    // the user's shell: another locale, time zone, home, terminal, working directory, compiler-ish variables
+    let env = if r.chance(1, 8) { 1 + r.below(crate::job::ENVIRONMENTS.len() as u64) as u8 } else { 0 };
+    (World { prop: "C05".into(), seed, threads, jobs, sched, note: format!("{:?}", d), log_level, env }, d)
 }
 
 /// C05 directed pass: program `p` alone on a fresh thread with the k-th hash key derived from `base`.
@@ -551,6 +553,9 @@ pub fn c16_world(seed: u64, corpus: &[Program]) -> World {
     }
     if r.chance(1, 4) {
         w.threads[0].hash_key = to_hex(&r.bytes16());
+    }
+    if r.chance(1, 16) {
+        w.env = 1 + r.below(crate::job::ENVIRONMENTS.len() as u64) as u8;
     }
     if r.chance(1, 24) && w.jobs.iter().all(|j| j.source.0.len() <= 32 * 1024) {
         w.log_level = 4 + r.below(2) as u8;
